@@ -9,7 +9,7 @@ import (
 
 // C01 — write-then-read round trip in all writer modes.
 func c01Body(c *mc.Ctx) {
-	mode := c.Pick("mode", 3)
+	mode := c.Pick("mode", 4)
 	vals, class := genValues(c, c.Tier == "thorough")
 	c.Class(modeNames[mode] + "/" + class)
 	c.Case(func() string { return fmt.Sprintf("mode=%s values=%s", modeNames[mode], rm.StreamString(vals)) })
